@@ -20,7 +20,7 @@ func init() {
 	lib.Register(&c12{base{
 		id: "C12", level: "exploration",
 		technique: "runtime snapshot monitor: before every call the instance, the ($ref-free) schema object, the raw bytes and the parsed specification are deep-snapshotted (independent second decoding + JSON text); after the call the live objects are compared with the snapshots by reflect.DeepEqual and by JSON text",
-		rule: "schema-level and parameter/header cases (17 of 18): $ref-free schemas with defaults from the draft-4 grammar x schema-derived and free instances through AgainstSchema, NewSchemaValidator with and without recycling, and parameter/header validators over typed slices; spec-level cases (1 of 18): generated clean specifications and accepted fixtures through Spec and SpecValidator.Validate in both continue-on-errors modes, comparing doc.Raw() bytes and, for accepted documents without self-referential definitions, doc.Spec(); distinct = FNV-64 of the inputs; non-trivial = the input contains a container (object/array/slice) the callee could write into and, for schemas, at least one default",
+		rule: "schema-level and parameter/header cases (17 of 18): $ref-free schemas with defaults from the draft-4 grammar x schema-derived and free instances through AgainstSchema, NewSchemaValidator with and without recycling, and parameter/header validators over typed slices; spec-level cases (1 of 18): generated clean specifications and accepted fixtures through Spec and SpecValidator.Validate in both continue-on-errors modes, comparing doc.Raw() bytes and, for accepted documents (the generator produces no self-referential definitions), the FULLY EXPANDED doc.Spec() computed on a deep copy before and after (the expander rewrites $ref nodes in place by design, which full expansion makes invisible, as the property's observation point says); distinct = FNV-64 of the inputs; non-trivial = the input contains a container (object/array/slice) the callee could write into and, for schemas, at least one default",
 		assumptions: []string{
 			"post.ApplyDefaults / post.Prune are not called (they mutate by contract)",
 			"schemas with $ref are excluded from the schema clause (the expander rewrites them in place by design), as the property states",
